@@ -357,6 +357,9 @@ def check_verdicts(ctx: Ctx, f):
         bn = cfg.node_of(b)
         if bn.loop is not loop:
             continue
+        pops = [cfg.stmt_node_containing(x) for x in ast.walk(wloop) if isinstance(x, ast.Call) and ast.unparse(x.func) == "heappop" and x.args and ast.unparse(x.args[0]) == heap]
+        if pops and not any(p_ is not None and cfg.dominates(p_, bn) for p_ in pops):
+            continue  # a break taken before any node was popped in this round leaves the heap as it is
         blk = _blk_of(f.node, b)
         pushed_back = any(isinstance(x, ast.Expr) and isinstance(x.value, ast.Call) and ast.unparse(x.value.func) == "heappush" and ast.unparse(x.value.args[0]) == heap for x in blk[: blk.index(b)])
         ctx.ob("C04-O4", "R2 BUDGET-EXIT", f, "a `break` out of the node loop does not abandon the node that was just popped", pushed_back, f"the popped node is no longer in `{heap}`: if it was the last one, `not {heap}` after the loop reads as an exhausted search and the incumbent is labelled OPTIMAL (or the problem INFEASIBLE)", node=b)
